@@ -137,6 +137,22 @@ func (o *C11Oracle) AfterAction(s *Sim, a *Action, pre, post *chain.Snapshot, re
 }
 
 func (o *C11Oracle) Boundary(s *Sim, sn *chain.Snapshot) {
+	// when the last shard an order lists has gone, the order goes too
+	for _, id := range chain.SortedU64(sn.Orders) {
+		ord := sn.Orders[id]
+		if len(ord.Shards) == 0 || ord.Status != ordertypes.OrderCompleted {
+			continue
+		}
+		alive := 0
+		for _, sid := range ord.Shards {
+			if _, ok := sn.Shards[sid]; ok {
+				alive++
+			}
+		}
+		if alive == 0 {
+			s.FailT("order-outlived-its-shards", "", map[string]string{"op": fmt.Sprint(ord.Operation)}, "h=%d order %d (op %d) is still on chain although every shard it lists %v has been released", sn.Height, id, ord.Operation, ord.Shards)
+		}
+	}
 	h := uint64(sn.Height)
 	liveByData := map[string]int{}
 	endedNow := map[string]bool{}
